@@ -2944,3 +2944,5 @@ PROP = Prop(
               "correspondence with CPython eval/exec as executing oracle",
     design_ref="DESIGN.md §4 C13",
 )
+
+PROP.level_note += ' Sixth seeded round: the guarded family also puts the SAME wrapper object into several parts of a conditional / and / or (evaluation order differs from text order), and function-source-signature checks that helper names of the generated body (float of a typed NaN) never become parameters.'
